@@ -216,4 +216,33 @@ fn conc(a: &Args) {
         }
         out.line(&json!({"ev": "end", "size": stats.size, "capacity": stats.capacity}));
     }
+    // Unlogged stress: writers that keep evicting while readers keep hitting, on tiny capacities.  Only the state
+    // that is left is recorded; every reachable state of Lru satisfies Bounded, so the observed one must.
+    for c in 0..a.num("stress", 0) {
+        let cap = 1 + (c % 3) as usize;
+        let cache = Arc::new(ObjectCache::new(cap));
+        let bar = Arc::new(Barrier::new(4));
+        let mut hs = Vec::new();
+        for t in 0..4u32 {
+            let cache = cache.clone();
+            let bar = bar.clone();
+            hs.push(std::thread::spawn(move || {
+                bar.wait();
+                for i in 0..20000u32 {
+                    let k = oxidize_pdf::objects::ObjectId::new(1 + (i.wrapping_mul(7).wrapping_add(t)) % 5, 0);
+                    if t < 2 {
+                        cache.put(k, Arc::new(PdfObject::Integer(i as i64)));
+                    } else {
+                        let _ = cache.get(&k);
+                    }
+                }
+            }));
+        }
+        for h in hs {
+            h.join().unwrap();
+        }
+        let stats = cache.stats();
+        let present = (1..=5u32).filter(|k| cache.get(&oxidize_pdf::objects::ObjectId::new(*k, 0)).is_some()).count();
+        out.line(&json!({"ev": "stress", "case": c, "cap": cap, "size": stats.size, "capacity": stats.capacity, "present": present}));
+    }
 }
